@@ -53,10 +53,15 @@ def analyse_variant(args):
     """Worker: analyse one variant tree; returns (name, exit class, violated constructs, errors)."""
     name, prop, files, overrides = args
     tmp = write_tree(files, overrides)
+    trace = os.environ.get('PVS_TRACE')
+    if trace:
+        with open(trace, 'a') as f:
+            f.write('start %s\n' % name)
     try:
         from .__main__ import run_property
         from .report import load_known, match_known
         chk, repo = run_property(prop, 'quick', 0, root=tmp)
+        chk.settle_equivalence(repo)
         chk.settle_restructuring(repo)
         known = load_known()
         viol = []
@@ -67,8 +72,11 @@ def analyse_variant(args):
                 viol.append('%s|%s|%s' % (o.rule, o.anchor.split(':')[-1], o.construct))
         errs = ['%s: %s' % e for e in chk.errors]
         for rule, minimum in chk.minimums.items():
-            if counts.get(rule, 0) < minimum and rule not in chk.soft_skipped:
+            if counts.get(rule, 0) < minimum and rule not in chk.soft_skipped and not chk.all_equivalent and not chk.restructured:
                 errs.append('%s: matched %d < %d' % (rule, counts.get(rule, 0), minimum))
+        if trace:
+            with open(trace, 'a') as f:
+                f.write('done %s\n' % name)
         return name, viol, errs
     except Exception as e:  # pragma: no cover
         return name, [], ['internal %s: %s' % (type(e).__name__, e)]
